@@ -802,6 +802,39 @@ class Ev:
                     self.assign(x["l"], self.arith(x["op"], cur, rhs, x, depth), env)
                 elif x.get("k") == "ret":
                     raise Return(self.eval(x["e"], env, depth) if "e" in x else Sym("unit"))
+                elif x.get("k") == "for" and self.search_loop(x) is not None:
+                    # `for x in seq { if c(x) { return K; } }  rest`  with K a bool literal: the function returns K iff some element satisfies c, else what the
+                    # rest of the block gives — `seq.any(c)` / `seq.all(!c)` when the rest is the opposite literal
+                    cond_e, lit = self.search_loop(x)
+                    it = self.eval(x["iter"], env, depth)
+                    if isinstance(it, Coll):
+                        it = it.seq
+                    if isinstance(it, Rec) and it.adt.endswith("ops::Range"):
+                        it = Seq(Sym("range", vkey(it.fields.get("start")), vkey(it.fields.get("end"))), lambda idx: idx)
+                    if not isinstance(it, Seq):
+                        el = self.elem_of(it)
+                        if el is None:
+                            raise Unsupported("search loop over a value that is not a modelled sequence at line %s" % x.get("ln"))
+                        it = Seq(it, el if callable(el) else (lambda idx, el=el: el))
+                    it = canon_seq(it)
+                    env2 = dict(env)
+                    self.bind(x["pat"], it.fn(Poly.atom("q%d" % len(self.loops))), env2)
+                    self.loops.append(("q", vkey(it.src)))
+                    try:
+                        for s_ in self._search_lets:
+                            self.bind(s_["pat"], self.collapse(self.eval(s_["init"], env2, depth)), env2)
+                        cv = self.collapse(self.eval(cond_e, env2, depth))
+                    finally:
+                        self.loops.pop()
+                    rest = self._run_block(e, i + 1, env, depth)
+                    found = Sym("exists", vkey(it.src), vkey(cv))
+                    if isinstance(rest, Sym) and rest.tag[:1] == ("bool",) and rest.tag[1] != lit:
+                        if lit == "true":
+                            return found
+                        ncv = Sym(*cv.tag[1][1:]) if (isinstance(cv, Sym) and cv.tag[0] == "not" and isinstance(cv.tag[1], tuple) and cv.tag[1][:1] == ("sym",)) else Sym("not", vkey(cv))
+                        return Sym("forall", vkey(it.src), vkey(ncv))
+                    g = ("if", vkey(found))
+                    return Alt([(g, EarlyRet(Sym("bool", lit))), (("not", g), rest)])
                 elif x.get("k") in ("for", "while"):
                     self.exec_stmt(x, env, depth)
                 elif x.get("k") in ("if", "match") and x.get("ty") in ("()", None) and not self.loops:
@@ -947,32 +980,14 @@ class Ev:
         if k == "match" and not self.loops:
             scrut = self.eval(x["e"], env, depth)
             out = []
-            for a in x["arms"]:
-                env2 = fork_env(env)
-                r = self.match_pat(a["pat"], scrut, env2)
-                if r is False:
-                    continue
-                if r is True and not out:
-                    return self.fork_exec(a["body"], env2, depth)
-                if r is None:
-                    env2 = fork_env(env)
-                    try:
-                        self.bind_pat_loose(a["pat"], scrut, env2)
-                    except Unsupported:
-                        pass
-                g = arm_guard(a["pat"], scrut)
-                gt = (g,)
-                if len(x["arms"]) >= 2 and a is x["arms"][-1] and catch_all(a) and r is None:
-                    gt = tuple(neg_guard(arm_guard(b["pat"], scrut)) for b in x["arms"][:-1])
+            for gt, env2, body in self.plan_arms(x["arms"], scrut, env, depth, fork=fork_env):
                 self.path.extend(gt)
                 try:
-                    out += [(gt + g2, e2) for g2, e2 in self.fork_exec(a["body"], env2, depth)]
+                    out += [(gt + g2, e2) for g2, e2 in self.fork_exec(body, env2, depth)]
                 except Return as ret:
                     out.append((gt, ret))
                 finally:
                     del self.path[len(self.path) - len(gt):]
-                if r is True:
-                    break
             return out
         try:
             self.exec_stmt(x, env, depth)
@@ -1140,19 +1155,12 @@ class Ev:
             return
         if k == "match":
             scrut = self.eval(x["e"], env, depth)
-            for a in x["arms"]:
-                r = self.match_pat(a["pat"], scrut, env)
-                if r is False:
-                    continue
-                if r is True:
-                    self.exec_stmt(a["body"], env, depth)
-                    return
-                self.bind_pat_loose(a["pat"], scrut, env)
-                self.guards.append(arm_guard(a["pat"], scrut))
+            for gt, env2, body in self.plan_arms(x["arms"], scrut, env, depth, fork=lambda en: en):
+                self.guards.extend(gt)
                 try:
-                    self.exec_stmt(a["body"], env, depth)
+                    self.exec_stmt(body, env2, depth)
                 finally:
-                    self.guards.pop()
+                    del self.guards[len(self.guards) - len(gt):]
             return
         if k == "assign":
             lhs = x["l"]
@@ -1382,39 +1390,80 @@ class Ev:
 
     def ev_match(self, e, env, depth):
         scrut = self.eval(e["e"], env, depth)
-        # decide the arm structurally when the scrutinee's constructors are known
-        for a in e["arms"]:
-            env2 = dict(env)
-            r = self.match_pat(a["pat"], scrut, env2)
-            if r is True and "guard" not in a:
-                return self.eval(a["body"], env2, depth)
-            if r is None or (r is True and "guard" in a):
-                break
+        plan = self.plan_arms(e["arms"], scrut, env, depth)
+        if len(plan) == 1 and not plan[0][0]:
+            return self.eval(plan[0][2], plan[0][1], depth)        # decided structurally
         alts = []
-        arm_guards = []
-        for n_, a in enumerate(e["arms"]):
-            env2 = dict(env)
-            g = arm_guard(a["pat"], scrut)
-            if n_ == len(e["arms"]) - 1 and n_ >= 1 and catch_all(a):
-                # the trailing catch-all arm is "none of the arms above": the same literals an if / else-if chain leaves on its last branch
-                prev = [neg_guard(alts_g) for alts_g in arm_guards]
-                g = prev[0] if len(prev) == 1 else ("all", tuple(prev))
-            arm_guards.append(g)
+        for gt, env2, body in plan:
+            g = gt[0] if len(gt) == 1 else ("all", gt)
+            self.path.extend(gt)
             try:
-                self.bind_pat_loose(a["pat"], scrut, env2)
-            except Unsupported:
-                pass
-            gl = list(g[1]) if isinstance(g, tuple) and len(g) == 2 and g[0] == "all" else [g]
-            self.path.extend(gl)
-            try:
-                alts.append((g, self.eval(a["body"], env2, depth)))
+                alts.append((g, self.eval(body, env2, depth)))
             except Return as ret:
                 alts.append((g, EarlyRet(ret.value)))       # `None => return Err(..)`: only this arm leaves the function
             finally:
-                del self.path[len(self.path) - len(gl):]
+                del self.path[len(self.path) - len(gt):]
         if alts and all(isinstance(x, EarlyRet) for _, x in alts):
             raise Return(Alt([(g, x.value) for g, x in alts]))
         return Alt(alts)
+
+    def search_loop(self, x):
+        """(condition expr, "true"/"false") if the `for` body is exactly `if COND { return <bool literal>; }`."""
+        b = x["body"]
+        while b.get("k") == "block" and not b["stmts"] and "e" in b:
+            b = b["e"]
+        iff, lets = None, []
+        if b.get("k") == "block" and b["stmts"] and all(s_["k"] == "let" and "init" in s_ for s_ in b["stmts"][:-1]) and "e" not in b and b["stmts"][-1]["k"] in ("expr", "semi"):
+            iff, lets = b["stmts"][-1]["e"], b["stmts"][:-1]
+        elif b.get("k") == "block" and all(s_["k"] == "let" and "init" in s_ for s_ in b["stmts"]) and b.get("e", {}).get("k") == "if":
+            iff, lets = b["e"], b["stmts"]
+        elif b.get("k") == "if":
+            iff = b
+        if not (iff and iff.get("k") == "if" and "e" not in iff and iff["c"].get("k") != "letx"):
+            return None
+        self._search_lets = lets
+        t = iff["t"]
+        while t.get("k") == "block":
+            if len(t["stmts"]) == 1 and "e" not in t and t["stmts"][0]["k"] in ("expr", "semi"):
+                t = t["stmts"][0]["e"]
+            elif not t["stmts"] and "e" in t:
+                t = t["e"]
+            else:
+                return None
+        if t.get("k") == "ret" and "e" in t and t["e"].get("k") == "lit" and str(t["e"].get("v")) in ("true", "false"):
+            return iff["c"], str(t["e"]["v"])
+        return None
+
+    def plan_arms(self, arms, scrut, env, depth, fork=dict):
+        """[(guard literals tuple, env for the body, body)] for the arms that can fire, in order. An arm fires iff its pattern matches, its `if` guard holds and
+        no earlier arm fired: `if` guards are evaluated with the pattern's bindings; a catch-all pattern (or any arm after a guarded one) carries the negation
+        of the arms above it — the literals an if / else-if chain leaves on the same branch. Patterns decided structurally are resolved here."""
+        out, above = [], []          # above: guard tuples of earlier arms that may have fired
+        for a in arms:
+            env2 = fork(env)
+            r = self.match_pat(a["pat"], scrut, env2)
+            if r is False:
+                continue
+            if r is None:
+                env2 = fork(env)
+                try:
+                    self.bind_pat_loose(a["pat"], scrut, env2)
+                except Unsupported:
+                    pass
+            always = r is True or catch_all_pat(a["pat"])
+            conds = [] if always else [arm_guard(a["pat"], scrut)]
+            if "guard" in a:
+                conds.append(guard_of(self.eval(a["guard"], env2, depth)))
+            negs = []
+            for prev_conds, prev_guarded in above:
+                if always or prev_guarded:
+                    negs.append(neg_guard(prev_conds[0]) if len(prev_conds) == 1 else ("not", ("all", tuple(prev_conds))))
+            full = tuple(negs) + tuple(conds)
+            out.append((full, env2, a["body"]))
+            if always and "guard" not in a:
+                break                  # nothing below can fire
+            above.append((tuple(conds) if conds else (("if", ("sym", "bool", "true")),), "guard" in a))
+        return out
 
     def bind_pat_loose(self, pat, val, env):
         k = pat.get("k")
@@ -1629,6 +1678,7 @@ class Ev:
                 return Seq(Sym("skip", vkey(recv.src), args[0].key()), lambda idx, f0=recv.fn, n=args[0]: f0(idx + n))
             if m in ("all", "any") and len(args) == 1 and isinstance(args[0], Clo):
                 f = args[0]
+                recv = canon_seq(recv)
                 env2 = dict(f.env)
                 self.bind(f.params[0], recv.fn(Poly.atom("q%d" % len(self.loops))), env2)
                 self.loops.append(("q", vkey(recv.src)))
@@ -1858,6 +1908,20 @@ def counted_loop(assigned, env, env2, cond):
     return None
 
 
+def canon_seq(seq):
+    """One spelling for quantification over consecutive elements / shifted ranges: `x.iter().zip(x.iter().skip(k))` runs over range(0, len(x) - k) with the
+    same element function, and a range that starts at a != 0 is range(0, b - a) with the index shifted — so `for i in 1..n { .. t[i-1] .. t[i] .. }` and
+    `t.iter().zip(t.iter().skip(1))` quantify over the same thing."""
+    src = vkey(seq.src)
+    if isinstance(src, tuple) and src[:2] == ("sym", "zip") and isinstance(src[3], tuple) and src[3][:2] == ("sym", "skip") and src[3][2] == src[2]:
+        n = Poly.atom(("len", src[2], None)) - poly_from_key(src[3][3])
+        return Seq(Sym("range", Poly.const(0).key(), n.key()), seq.fn, seq.enumerated)
+    if isinstance(src, tuple) and src[:2] == ("sym", "range") and src[2] != Poly.const(0).key():
+        a, b = poly_from_key(src[2]), poly_from_key(src[3])
+        return Seq(Sym("range", Poly.const(0).key(), (b - a).key()), lambda idx, f0=seq.fn, a=a: f0(idx + a), seq.enumerated)
+    return seq
+
+
 def arm_guard(pat, scrut):
     """Guard of a match arm. An arm of `a.cmp(&b)` (integers) on an Ordering variant is the integer comparison itself, so a match on the ordering and an
     if-chain on the comparisons leave the same literals on their paths."""
@@ -1909,6 +1973,10 @@ def is_continue_block(b):
         else:
             return False
     return b.get("k") == "continue"
+
+
+def catch_all_pat(p):
+    return p.get("k") == "wild" or (p.get("k") == "bind" and "sub" not in p)
 
 
 def catch_all(arm):
